@@ -45,6 +45,7 @@ type Viol struct {
 	Sig     string `json:"sig"`
 	Detail  string `json:"detail"`
 	Choices []int  `json:"choices"`
+	Policy  int    `json:"policy,omitempty"`
 }
 
 var cur []Viol // violations reported by the running execution
@@ -81,6 +82,11 @@ type Stats struct {
 	Complete   bool           `json:"complete"`
 	HarnessErr string         `json:"harness_error,omitempty"`
 	Branches   int            `json:"branches"`
+	// phase A: only switches between the harness's own (workload) threads are branched on, library goroutines follow
+	// the default policy; explored before the full space, with one more preemption
+	WorkExecs    int64 `json:"work_execs"`
+	WorkComplete bool  `json:"work_complete"`
+	WorkBound    int   `json:"work_bound"`
 }
 
 type explorer struct {
@@ -96,6 +102,8 @@ type explorer struct {
 	violSeen map[string]bool
 	onExec   func(e *vsched.Exec, obs string) bool // optional: called for every completed execution; false stops
 	stopped  bool
+	workOnly bool
+	curKeys  map[uint64]bool
 }
 
 func preemptionsBefore(pts []vsched.Point, i int) int {
@@ -204,7 +212,7 @@ func (x *explorer) check(o outcome) {
 			continue
 		}
 		x.violSeen[v.Sig] = true
-		v.Choices = ch
+		v.Choices, v.Policy = ch, vsched.Policy
 		if len(x.st.Violations) < 40 {
 			x.st.Violations = append(x.st.Violations, v)
 		}
@@ -212,11 +220,17 @@ func (x *explorer) check(o outcome) {
 }
 
 func (x *explorer) onPoint(e *vsched.Exec, key uint64) bool {
+	// a key seen earlier in THIS execution is a polling loop (the key does not hold the yield counters that drive
+	// the fair default order): the execution goes on; only states expanded by an earlier execution are pruned
+	if x.curKeys[key] {
+		return true
+	}
 	c := preemptionsBefore(e.Points, len(e.Points))
 	if old, ok := x.visited[key]; ok && old <= c {
 		return false
 	}
 	x.visited[key] = c
+	x.curKeys[key] = true
 	return true
 }
 
@@ -228,6 +242,7 @@ func (x *explorer) explore(prefix []int, top bool) {
 		x.st.Complete = false
 		return
 	}
+	x.curKeys = map[uint64]bool{}
 	o := runOnce(x.sc, x.dir, prefix, x.onPoint, false)
 	e := o.e
 	if e.Diverged {
@@ -259,28 +274,48 @@ func (x *explorer) explore(prefix []int, top bool) {
 		x.st.Complete = false
 		return
 	}
-	for i := len(prefix); i < last; i++ {
-		p := e.Points[i]
-		cost := preemptionsBefore(e.Points, i)
-		if p.CurEnabled && !p.Voluntary {
-			cost++
+	if top && os.Getenv("SCHED_DEBUG_POINTS") != "" {
+		fmt.Fprintf(os.Stderr, "DEBUG focus=%d points=%d workOnly=%v pruned=%v failure=%q obs=%q\n", e.FocusAt, len(e.Points), x.workOnly, e.Pruned, e.Failure, o.obs)
+		for i, p := range e.Points {
+			if i >= e.FocusAt && i < e.FocusAt+60 {
+				fmt.Fprintf(os.Stderr, "DEBUG  point %d N=%d work=%b cur=%v vol=%v tid=%d\n", i, p.N, p.Work, p.CurEnabled, p.Voluntary, p.Tid)
+			}
 		}
-		if cost > x.bound {
-			continue
-		}
-		for alt := 1; alt < p.N; alt++ {
-			if top {
-				x.branch++
-				if x.branch%x.n != x.shard {
+	}
+	first := len(prefix)
+	if e.FocusAt > first {
+		first = e.FocusAt // the setup phase (before vsched.Focus) is not permuted
+	}
+	// two passes: switches to a workload thread first (the interleavings of the harness's own threads are reached
+	// before the time budget goes into the library's background goroutines), then all other alternatives
+	for pass := 0; pass < 2; pass++ {
+		for i := first; i < last; i++ {
+			p := e.Points[i]
+			cost := preemptionsBefore(e.Points, i)
+			if p.CurEnabled && !p.Voluntary {
+				cost++
+			}
+			if cost > x.bound {
+				continue
+			}
+			for alt := 1; alt < p.N; alt++ {
+				work := p.Env || (alt < 64 && p.Work&(1<<uint(alt)) != 0)
+				if work != (pass == 0) || (x.workOnly && !work) {
 					continue
 				}
+				if top {
+					x.branch++
+					if x.branch%x.n != x.shard {
+						continue
+					}
+				}
+				np := make([]int, i+1)
+				for k := 0; k < i; k++ {
+					np[k] = e.Points[k].Chosen
+				}
+				np[i] = alt
+				x.explore(np, false)
 			}
-			np := make([]int, i+1)
-			for k := 0; k < i; k++ {
-				np[k] = e.Points[k].Chosen
-			}
-			np[i] = alt
-			x.explore(np, false)
 		}
 	}
 	if top {
@@ -288,15 +323,44 @@ func (x *explorer) explore(prefix []int, top bool) {
 	}
 }
 
-// ExploreShard explores the shard's part of the bounded schedule space of sc.
-func ExploreShard(sc Scenario, bound int, deadline time.Time, shard, n int) Stats {
-	x := &explorer{sc: sc, bound: bound, deadline: deadline, shard: shard, n: n, visited: map[uint64]int{}, violSeen: map[string]bool{},
-		dir: fmt.Sprintf("%s/w%d", scratchBase(), shard)}
-	x.st = Stats{Scenario: sc.Name, Bound: bound, Outcomes: map[string]int{}, Complete: true}
+// run: phase A (workload-thread switches only, bound+1, at most half of the time), then the full space at bound.
+func (x *explorer) run() Stats {
+	full := x.deadline
+	x.st = Stats{Scenario: x.sc.Name, Bound: x.bound, Outcomes: map[string]int{}, Complete: true}
+	if x.onExec == nil { // (callers that consume every execution get the full space only)
+		// iterative bounding under both default-order policies: every (bound, policy) is completed before the next one
+		// starts; WorkBound = last bound completed under both
+		jobBound := x.bound
+		x.workOnly = true
+		x.deadline = time.Now().Add(time.Until(full) / 2)
+	phaseA:
+		for b := 1; b <= jobBound+1 && x.st.HarnessErr == ""; b++ {
+			for pol := 0; pol <= 1; pol++ {
+				vsched.Policy = pol
+				x.bound, x.visited, x.branch, x.st.Complete = b, map[uint64]int{}, 0, true
+				x.explore(nil, true)
+				if !x.st.Complete {
+					break phaseA
+				}
+			}
+			x.st.WorkBound, x.st.WorkComplete = b, true
+		}
+		vsched.Policy = 0
+		x.st.WorkExecs = x.st.Execs
+		x.workOnly, x.bound, x.deadline = false, jobBound, full
+		x.visited, x.branch, x.st.Complete = map[uint64]int{}, 0, true
+	}
 	x.explore(nil, true)
 	x.st.States = int64(len(x.visited))
 	os.RemoveAll(x.dir)
 	return x.st
+}
+
+// ExploreShard explores the shard's part of the bounded schedule space of sc.
+func ExploreShard(sc Scenario, bound int, deadline time.Time, shard, n int) Stats {
+	x := &explorer{sc: sc, bound: bound, deadline: deadline, shard: shard, n: n, visited: map[uint64]int{}, violSeen: map[string]bool{},
+		dir: fmt.Sprintf("%s/w%d", scratchBase(), shard)}
+	return x.run()
 }
 
 // ExploreLocal explores sc in this process (one worker) and hands every completed execution to onExec right
@@ -304,14 +368,9 @@ func ExploreShard(sc Scenario, bound int, deadline time.Time, shard, n int) Stat
 func ExploreLocal(sc Scenario, bound int, deadline time.Time, onExec func(e *vsched.Exec, obs string) bool) Stats {
 	x := &explorer{sc: sc, bound: bound, deadline: deadline, shard: 0, n: 1, visited: map[uint64]int{}, violSeen: map[string]bool{},
 		dir: fmt.Sprintf("%s/local", scratchBase()), onExec: onExec}
-	x.st = Stats{Scenario: sc.Name, Bound: bound, Outcomes: map[string]int{}, Complete: true}
-	x.explore(nil, true)
-	x.st.States = int64(len(x.visited))
-	os.RemoveAll(x.dir)
-	return x.st
+	return x.run()
 }
 
-// ScratchDir of the local explorer (the directory the scenario body receives).
 func LocalDir() string { return fmt.Sprintf("%s/local", scratchBase()) }
 
 // Cleanup removes the scratch area of this process.
@@ -383,6 +442,7 @@ func IsWorker() bool {
 type replayFile struct {
 	Scenario string `json:"scenario"`
 	Choices  []int  `json:"choices"`
+	Policy   int    `json:"policy,omitempty"`
 }
 
 // Main drives a scheduler-based check: self-check, then every job sharded over worker processes; merges the
@@ -451,6 +511,15 @@ func Run(c *lib.Check, scenarios []Scenario, jobs []Job) bool {
 		os.Exit(0)
 	}
 	defer os.RemoveAll(scratchBase())
+	if only := os.Getenv("VERIF_ONLY"); only != "" { // debugging aid: only the jobs whose scenario name contains this
+		var js []Job
+		for _, j := range jobs {
+			if strings.Contains(j.Scenario, only) {
+				js = append(js, j)
+			}
+		}
+		jobs = js
+	}
 	if c.ReplayPath != "" {
 		var r replayFile
 		c.LoadReplay(&r)
@@ -458,6 +527,7 @@ func Run(c *lib.Check, scenarios []Scenario, jobs []Job) bool {
 			return true // not a schedule replay
 		}
 		sc := find(r.Scenario)
+		vsched.Policy = r.Policy
 		o := runOnce(sc, scratchBase()+"/replay", r.Choices, nil, true)
 		for _, l := range o.e.Trace {
 			fmt.Println("  ", l)
@@ -496,6 +566,11 @@ func Run(c *lib.Check, scenarios []Scenario, jobs []Job) bool {
 			exhaustive = false
 			continue
 		}
+		if v := os.Getenv("VERIF_JOB_BUDGET"); v != "" { // debugging aid
+			if d, err := time.ParseDuration(v); err == nil {
+				j.Budget = d
+			}
+		}
 		dl := time.Now().Add(j.Budget)
 		if dl.After(c.Deadline) {
 			dl = c.Deadline
@@ -522,7 +597,7 @@ func Run(c *lib.Check, scenarios []Scenario, jobs []Job) bool {
 			}(i)
 		}
 		wg.Wait()
-		tot := Stats{Scenario: j.Scenario, Bound: j.Bound, Outcomes: map[string]int{}, Complete: true}
+		tot := Stats{Scenario: j.Scenario, Bound: j.Bound, Outcomes: map[string]int{}, Complete: true, WorkComplete: true}
 		for i := 0; i < n; i++ {
 			if errs[i] != nil {
 				fmt.Fprintln(os.Stderr, "HARNESS ERROR:", errs[i])
@@ -541,11 +616,15 @@ func Run(c *lib.Check, scenarios []Scenario, jobs []Job) bool {
 				tot.MaxPoints = r.MaxPoints
 			}
 			tot.Complete = tot.Complete && r.Complete
+			tot.WorkExecs += r.WorkExecs
+			if i == 0 || r.WorkBound < tot.WorkBound {
+				tot.WorkBound = r.WorkBound // the bound every shard completed
+			}
 			for k, v := range r.Outcomes {
 				tot.Outcomes[k] += v
 			}
 			for _, v := range r.Violations {
-				c.Violate(lib.Violation{Sig: v.Sig, Detail: v.Detail, Replay: replayFile{Scenario: j.Scenario, Choices: v.Choices}})
+				c.Violate(lib.Violation{Sig: v.Sig, Detail: v.Detail, Replay: replayFile{Scenario: j.Scenario, Choices: v.Choices, Policy: v.Policy}})
 			}
 		}
 		if !tot.Complete {
@@ -566,8 +645,9 @@ func Run(c *lib.Check, scenarios []Scenario, jobs []Job) bool {
 			outs = outs[:12]
 		}
 		summaries = append(summaries, map[string]any{"scenario": j.Scenario, "preemption_bound": j.Bound, "executions": tot.Execs, "pruned_by_state_key": tot.Pruned,
-			"hb_states_per_worker_sum": tot.States, "scheduling_steps": tot.Steps, "max_choice_points": tot.MaxPoints, "distinct_outcomes": len(tot.Outcomes), "complete": tot.Complete, "outcomes": outs})
-		fmt.Printf("  %s bound=%d execs=%d pruned=%d states=%d outcomes=%d complete=%v\n", j.Scenario, j.Bound, tot.Execs, tot.Pruned, tot.States, len(tot.Outcomes), tot.Complete)
+			"hb_states_per_worker_sum": tot.States, "scheduling_steps": tot.Steps, "max_choice_points": tot.MaxPoints, "distinct_outcomes": len(tot.Outcomes), "complete": tot.Complete, "outcomes": outs,
+			"workload_thread_phase": map[string]any{"preemption_bound_completed": tot.WorkBound, "executions": tot.WorkExecs}})
+		fmt.Printf("  %s bound=%d execs=%d pruned=%d states=%d outcomes=%d complete=%v workload-phase: bound completed=%d execs=%d\n", j.Scenario, j.Bound, tot.Execs, tot.Pruned, tot.States, len(tot.Outcomes), tot.Complete, tot.WorkBound, tot.WorkExecs)
 		if len(summaries) <= 4 {
 			c.Sample(map[string]any{"scenario": j.Scenario, "bound": j.Bound, "some_outcomes": outs})
 		}
